@@ -50,13 +50,14 @@ theorem seq_cmd_ok (cfg : Cfg) (doc : Option DocC) (call : Call) (inClass : Bool
     have hs : specialNames.contains call.lname = false := by rw [htest]; decide
     rw [step_proc cfg st doc call .addTest cfg.inclAddTest (fun st doc => processAddTest st call.toCmd doc) hs hset
       (by rw [htest]; decide) rfl (fun _ _ => rfl)]
-    have hl : 2 ≤ call.singles.length ∧ nameOk call.singles = true := by simpa [htest] using hwtest
+    have hl : 2 ≤ (argTexts call.toCmd.args).length ∧ nameOk (argTexts call.toCmd.args) = true := by
+      simpa [htest, Call.allTexts] using hwtest
     simp (decide := true) only [Item.cpaDirect, Item.spec, htest, if_true, if_false]
     by_cases hd : (doc.isSome || cfg.inclAddTest) = true
-    · simp only [hd, if_true, processAddTest, Call.singles_toCmd, scanName_of_nameOk _ hl.2]
-      have : ¬ call.singles.length < 2 := by omega
+    · simp only [hd, if_true, processAddTest, Call.allTexts, scanName_of_nameOk _ hl.2]
+      have : ¬ (argTexts call.toCmd.args).length < 2 := by omega
       simp only [this, if_false, ctestParams]
-      rcases nameOf call.singles with ⟨name, _ | k⟩ <;> simp [AggState.push, post_top]
+      rcases nameOf (argTexts call.toCmd.args) with ⟨name, _ | k⟩ <;> simp [AggState.push, post_top]
     · simp [hd, post_empty]
   by_cases hattr : call.lname = lit "cpp_attr"
   · -- cpp_attr
